@@ -9,6 +9,7 @@ for line in open(f'{V}/mutants/results.tsv'):
     if len(f) >= 5:
         res[f[0]].append(dict(check=f[1], tier=f[2], rc=f[3], nviol=f[4], keys=f[5] if len(f) > 5 else ''))
 rows = []
+bys = []
 for name in sorted(os.listdir(f'{V}/seeded')):
     m = json.load(open(f'{V}/seeded/{name}/meta.json'))
     summary = m.get('summary')
@@ -36,11 +37,12 @@ for name in sorted(os.listdir(f'{V}/seeded')):
         by += ' (also ' + ', '.join(others) + ')'
     files = ', '.join(os.path.basename(f) for f in m.get('files_touched', []))
     rows.append(f"| {name} | {files} | {summary} | {by} | `{key[:110]}` |")
+    bys.append(by)
 table = "| seed | files touched | mechanism / what it needs (from the seed's own notes) | reported by | first failure key |\n|---|---|---|---|---|\n" + "\n".join(rows)
 n = len(rows)
-rep = sum(1 for r in rows if 'not reported' not in r and 'not run' not in r)
-own = sum(1 for r in rows if '(not by' not in r and 'not reported' not in r and 'not run' not in r)
-ownq = sum(1 for r in rows if re.search(r'\| C\d\d quick', r))
+rep = sum(1 for b in bys if 'not reported' not in b and 'not run' not in b)
+own = sum(1 for b in bys if '(not by' not in b and 'not reported' not in b and 'not run' not in b)
+ownq = sum(1 for b in bys if re.match(r'C\d\d quick', b))
 head = f"{n} seeded changes; {rep} reported by at least one check, {own} of them by the check of the very property the change was written against ({ownq} by its quick tier, {own - ownq} by its thorough tier only).\n\n"
 p = f'{V}/DESIGN.md'
 s = open(p).read()
